@@ -30,6 +30,9 @@ var v9Signal bool // the transport produced a failure signal
 var v9Calls int
 
 func verifDo(req *http.Request) (*http.Response, error) {
+	if v9Upload != nil {
+		return verifDoUpload(req)
+	}
 	v9Calls++
 	var ins []*requests.Request
 	if err := json.Unmarshal(verifRequestBody(req), &ins); err != nil {
@@ -144,4 +147,53 @@ func VerifDownstreamAnswers() {
 		verifAssert(res[i] != nil && res[i]["tag"] == v9Tags[i], "every accepted result is present and answers its own request")
 	}
 	verifReach("answer accepted")
+}
+
+// VerifUploadAnswers: the same obligations for a request that carries a file (it travels alone, as
+// multipart/form-data, and is answered with one object instead of an array)
+func VerifUploadAnswers() {
+	kind := verifChoice("answer", 7)
+	status := verifInt("status", 100, 599)
+	signal := status < 200 || status > 299
+	body := ""
+	switch kind {
+	case 0:
+		body = `{"data":{"tag":"q0"}}`
+	case 1:
+		body, signal = `{"data":null}`, true
+	case 2:
+		body, signal = `null`, true
+	case 3:
+		body, signal = `{}`, true
+	case 4:
+		body, signal = `{"data":null,"errors":[{"message":"boom"}]}`, true
+	case 5:
+		body, signal = ``, true
+	case 6:
+		body, signal = `<html>502</html>`, true
+	}
+	v9Upload = func(req *http.Request) (*http.Response, error) {
+		return &http.Response{StatusCode: status, Body: &vBody{[]byte(body)}}, nil
+	}
+	q := &MultiOpQueryer{url: "u", client: &http.Client{Transport: vNativeTransport{verifDo}}, maxBatchSize: 10}
+	in := &requests.Request{Query: "q0", Variables: map[string]interface{}{"f": &requests.Upload{File: &vBody{[]byte("bytes")}, FileName: "f"}}}
+	res, err := q.Query([]*requests.Request{in})
+	if signal {
+		verifAssert(err != nil, "a failure signal from the service is reported as an error (request with a file)")
+		verifReach("upload failure signal")
+	}
+	if err != nil {
+		verifAssert(res == nil, "no partial results next to an error")
+		verifAssert(signal, "a healthy, well-formed answer is not reported as an error")
+		return
+	}
+	verifAssert(len(res) == 1 && res[0] != nil && res[0]["tag"] == "q0", "every accepted result is present and answers its own request")
+	verifReach("upload answer accepted")
+}
+
+var v9Upload func(req *http.Request) (*http.Response, error)
+
+func verifDoUpload(req *http.Request) (*http.Response, error) {
+	verifAssert(verifRequestMultipart(req) != nil, "a request with a file is sent as multipart/form-data")
+	return v9Upload(req)
 }
